@@ -479,14 +479,8 @@ func (q *srcQuery) parsedNonEmpty(v ssa.Value, frames []srcFrame, ctx []Fact) bo
 		if l.isAlias(w, arg) {
 			return true
 		}
-		if u, ok := arg.(*ssa.UnOp); ok && u.Op == token.MUL {
-			if ia, ok := u.X.(*ssa.IndexAddr); ok {
-				if k, isK := constInt(ia.Index); isK && k == 0 {
-					if sc, _ := callOf(ia.X); sc != nil && isColonSplit(sc) && l.isAlias(w, w.resolveLoad(sc.Call.Args[0])) {
-						return true
-					}
-				}
-			}
+		if whole := leadingFieldOf(arg); whole != nil && l.isAlias(w, w.resolveLoad(whole)) {
+			return true
 		}
 	}
 	return false
